@@ -12,6 +12,7 @@ var propRunners = map[string]func(c *Checker){
 	"C11": runC11,
 	"C13": runC13,
 	"C15": runC15,
+	"C16": runC16,
 	"C19": runC19,
 	"C20": runC20,
 }
